@@ -9,7 +9,7 @@ def sh(cmd, cwd, timeout=3600):
     return p.returncode, (p.stdout + p.stderr)[-3000:]
 
 def confirm(pid):
-    d = '/tmp/seed/%s' % pid
+    d = os.path.join(os.environ.get('SEED_DIR', '/tmp/seed'), pid)
     head = subprocess.check_output(['git', '-C', '/repo', 'rev-parse', 'HEAD'], text=True).strip()
     sh('git checkout -q -- . && git checkout -q --detach %s' % head, d)
     out = {}
@@ -61,7 +61,7 @@ def confirm(pid):
         os.remove(os.path.join(d, demo))
         r['confirmed'] = all(r.get(k) for k in ('applies', 'builds', 'demo_fails_with_change', 'baseline_tests_pass_with_change', 'demo_passes_without_change'))
         out[X] = r
-    json.dump(out, open('/tmp/seed/confirm-%s.json' % pid, 'w'), indent=1)
+    json.dump(out, open(os.path.join(os.environ.get('SEED_DIR', '/tmp/seed'), 'confirm-%s.json' % pid), 'w'), indent=1)
     return out
 
 if __name__ == '__main__':
